@@ -89,6 +89,12 @@ func gen(tier string) []proto.Item {
 				s.MaxSteps = 200000 + 20*cnt
 				s.Inject = []proto.Inject{{OnTTL: r[0], AnswerTTL: r[0], Form: form, From: evil, DelayUs: 100, Tag: "flood", Truncate: 11, Repeat: cnt, EveryUs: 1000}}
 				items = append(items, proto.Item{Scn: s, Class: cls + "/malformed-flood", Note: map[string]string{"extra": fmt.Sprint(cnt)}})
+				// copies of a GENUINE reply (a reply the run accepts) every millisecond, across the deadline
+				s = mk()
+				s.MaxSteps = 200000 + 20*cnt
+				delete(s.Hops, r[0])
+				s.Inject = []proto.Inject{{OnTTL: r[0], AnswerTTL: r[0], Form: form, From: proto.Router(vi.V6, 0, r[0]).String(), DelayUs: 20000, Tag: "duplicate-flood", Genuine: true, Repeat: cnt, EveryUs: 1000}}
+				items = append(items, proto.Item{Scn: s, Class: cls + "/genuine-duplicates-flood", Note: map[string]string{"extra": fmt.Sprint(cnt)}})
 				// a burst right at the deadline
 				s = mk()
 				at := cfg[0]*1000 - 500
@@ -116,6 +122,14 @@ func gen(tier string) []proto.Item {
 			for at := step; at <= 360; at += step {
 				s := proto.Scn{Variant: v, First: 1, Last: 4, Dest: 0, TimeoutMs: 300, DelayMs: 10, CancelAtMs: at, Hops: map[int]proto.HopSpec{1: {Silent: true}, 2: {Silent: true}, 3: {Silent: true}, 4: {Silent: true}}}
 				items = append(items, proto.Item{Scn: s, Class: v + "/cancel-grid", Note: map[string]string{"cancel": fmt.Sprint(at)}})
+				if at%60 == 0 {
+					// the same, while copies of an accepted reply keep arriving
+					s2 := s
+					s2.Hops = map[int]proto.HopSpec{2: {Silent: true}, 3: {Silent: true}, 4: {Silent: true}}
+					s2.MaxSteps = 400000
+					s2.Inject = []proto.Inject{{OnTTL: 1, AnswerTTL: 1, Form: vi.TEForm, From: proto.Router(vi.V6, 0, 1).String(), DelayUs: 5000, Tag: "duplicate-flood", Genuine: true, Repeat: 600, EveryUs: 1000}}
+					items = append(items, proto.Item{Scn: s2, Class: v + "/cancel-grid/genuine-duplicates-flood", Note: map[string]string{"cancel": fmt.Sprint(at), "extra": "600"}})
+				}
 			}
 		}
 	}
